@@ -222,6 +222,16 @@ def gen_names(repo: str) -> str:
     else:
         raise Untranslatable(OB + ".joinKeepsRightDisplay", "unrecognised display-name bookkeeping in join")
 
+    ubn = _src(_method(df, "unionByName"))
+    if "l_columns = self._columns" not in ubn or "r_columns = other._columns" not in ubn:
+        raise Untranslatable(OB + ".unionByName", "unionByName no longer matches the two sides by their normalised names (`_columns`)")
+    if "if l_column in r_columns:" not in ubn or "r_columns_unused.remove(l_column)" not in ubn:
+        raise Untranslatable(OB + ".unionByName", "unionByName(allowMissingColumns=True) left the modelled shape")
+    if "l_df = l_df._convert_leaf_to_cte().select(*self._ensure_list_of_columns(l_expressions))" in ubn and "other.copy()._convert_leaf_to_cte().select(*self._ensure_list_of_columns(r_expressions))" in ubn:
+        union_resel = True  # both sides re-selected by normalised names through the public select
+    else:
+        raise Untranslatable(OB + ".unionByNameReselects", "unrecognised re-selection in unionByName")
+
     jk = _src(_method(df, "_handle_join_column_names_only"))
     if "if join_column.alias_or_name in cte.this.named_selects:" in jk:
         join_key_qp = True  # the quote-preserving text ("`a b`") is looked up among unquoted names
@@ -289,6 +299,8 @@ def gen_names(repo: str) -> str:
     L.append(f"def joinKeyLookupQuotePreserving : Bool := {b(join_key_qp)}")
     L.append("/-- methods that push `col(<normalised name>)` columns through the public `select` -/")
     L.append("def reselectMethods : List String := [" + ", ".join(lean_str(m) for m in resel) + "]")
+    L.append("/-- unionByName(allowMissingColumns=True) re-selects both sides by normalised names (display names lost) -/")
+    L.append(f"def unionByNameReselects : Bool := {b(union_resel)}")
     L.append(f"def schemaUsesTypedName : Bool := {b(schema_typed)}")
     L.append(f"def orderByReparsesText : Bool := {b(order_reparse)}")
     L.append(f"def collectFrom : String := {lean_str(cfrom)}")
